@@ -5,3 +5,4 @@ import YardlProofs.StreamsW
 import YardlProofs.StreamsR
 import YardlProofs.Batch
 import YardlProofs.Imports
+import YardlProofs.Determinism
